@@ -134,7 +134,11 @@ TRACE_INVS = ("TypeOK", "DoneImpliesFinal", "RunOnlyStaged", "RestartBound", "Ki
 def validate_traces(tag, shape_names, runs, props=("TLaunchSafeModuloKnown",) + TRACE_PROPS,
                     invariants=TRACE_INVS, fixobs=False, batch=400, timeout=1700, fix_restart_race=True):
     """Validates the recorded runs against SchedulerTrace.tla.  Returns (results, tlc results) where results[i] is
-    None (accepted) or dict(step=..., kind=...)."""
+    None (accepted) or dict(kind="rejected", step=furthest matched step) - no action of the specification explains the
+    next recorded step - or dict(kind="property", prop=..., step=...) - an invariant / action property of the
+    specification is false on the logged real states.  TLC runs with -continue: one invocation per batch reports every
+    run that violates a property (the first violation per run is kept) and, through the postcondition, every rejected run."""
+    import re
     from . import ctl
     results = [None] * len(runs)
     tlcs = []
@@ -144,33 +148,41 @@ def validate_traces(tag, shape_names, runs, props=("TLaunchSafeModuloKnown",) + 
         with open(os.path.join(d, "SchedTraceData.tla"), "w") as f:
             f.write("---- MODULE SchedTraceData ----\nTraces == <<\n  %s\n>>\n====\n" % ",\n  ".join(ctl.trace_to_tla(h, h.sid) for h in chunk))
         # the environment actions are all allowed when matching a recorded run (what happened is in the record)
-        body = consts(False, fixobs, kill=True, starts=(0,), max_sleeps=99, memo=True, fix_restart_race=fix_restart_race) + "SPECIFICATION TraceSpec\nCONSTRAINT Record\nPOSTCONDITION AllAccepted\n"
+        body = consts(False, fixobs, kill=True, starts=(0,), max_sleeps=99, memo=True, fix_restart_race=fix_restart_race)
+        body += "SPECIFICATION TraceSpec\nCONSTRAINT Record\nPOSTCONDITION AllAccepted\n"
         body += "".join("INVARIANT %s\n" % i for i in invariants) + "".join("PROPERTY %s\n" % p for p in props) + "CHECK_DEADLOCK FALSE\n"
         c = cfg(os.path.join(d, "trace.cfg"), body)
-        r = tlc.run_tlc("SchedulerTrace", c, specdir=d, workers=1, timeout=timeout, expect_violation=True)
+        r = tlc.run_tlc("SchedulerTrace", c, specdir=d, workers=1, timeout=timeout, expect_violation=True, extra=["-continue"])
         tlcs.append(r)
         out = r["out"]
-        if r["violated"] and "postcondition" not in str(r["violated"]).lower():
-            # an invariant / action property of the specification is false on logged real states
-            import re
-            m = re.search(r"/\\ tid = (\d+)", out[out.find("Error:"):])
-            t = int(m.group(1)) - 1 if m else 0
-            ls = re.findall(r"/\\ l = (\d+)", out[out.find("Error:"):])
-            results[b0 + t] = dict(kind="property", prop=r["violated"], step=int(ls[-1]) if ls else None)
-            # the remaining runs of this chunk were not fully examined: validate them individually
-            rest = [h for i, h in enumerate(chunk) if i != t]
-            if rest:
-                sub, subt = validate_traces(tag + "r%d" % b0, shape_names, rest, props, invariants, fixobs, batch=max(1, len(rest) // 2), timeout=timeout,
-                                            fix_restart_race=fix_restart_race)
-                j = 0
-                for i in range(len(chunk)):
-                    if i != t:
-                        results[b0 + i] = sub[j]
-                        j += 1
-                tlcs += subt
-            continue
-        import re
-        m = re.search(r'<<\s*"REJECTED",(.*?)>>\s*\nError', out, re.S)
+        if re.search(r"Error: Evaluating|Error: TLC threw|Exception", out) and "is violated" not in out and "REJECTED" not in out:
+            raise MachineryError("trace validation failed to run: %s" % out[-3000:])
+        # (1) properties false on logged real states: one block per violation
+        cur = None
+        blocks = []
+        for line in out.splitlines():
+            m = re.match(r"Error: (?:Invariant|Action property) (\S+) is violated", line)
+            if m:
+                cur = dict(prop=m.group(1), tid=None, l=None)
+                blocks.append(cur)
+                continue
+            if line.startswith("Error: The postcondition") or line.startswith("<<"):
+                cur = None
+            if cur is not None:
+                m = re.match(r"/\\ tid = (\d+)", line)
+                if m:
+                    cur["tid"] = int(m.group(1))
+                m = re.match(r"/\\ l = (\d+)", line)
+                if m:
+                    cur["l"] = int(m.group(1))
+        for b in blocks:
+            if b["tid"] is None:
+                raise MachineryError("cannot attribute the violation of %s to a run:\n%s" % (b["prop"], out[-2000:]))
+            i = b0 + b["tid"] - 1
+            if results[i] is None or (results[i]["kind"] == "property" and (b["l"] or 0) < (results[i]["step"] or 0)):
+                results[i] = dict(kind="property", prop=b["prop"], step=b["l"])
+        # (2) runs that were not matched to their end
+        m = re.search(r'<<\s*"REJECTED",(.*?)>>\s*\n', out, re.S)
         if m:
             pairs = re.findall(r"(\d+) :> (\d+)", m.group(1))
             if not pairs:       # a function whose domain is 1..n is printed as a tuple
@@ -178,7 +190,9 @@ def validate_traces(tag, shape_names, runs, props=("TLaunchSafeModuloKnown",) + 
             if not pairs:
                 raise MachineryError("cannot parse REJECTED report: %s" % m.group(1)[:200])
             for tt, ll in pairs:
-                results[b0 + int(tt) - 1] = dict(kind="rejected", step=int(ll))
-        elif not r["ok"]:
+                i = b0 + int(tt) - 1
+                if results[i] is None:
+                    results[i] = dict(kind="rejected", step=int(ll))
+        elif not r["ok"] and not blocks:
             raise MachineryError("trace validation failed to run: %s" % out[-3000:])
     return results, tlcs
